@@ -102,7 +102,6 @@ Qed.
 (* ---------- the typed setters: every reachable witness set writes each element once ---------- *)
 Definition op_ok (o : ws_op) : Prop :=
   match o with
-  | SetVkeys v | SetBoot v => NoDup v               (* values of the set types of part 1 *)
   | SetPlutus l => Forall (fun s => N.of_nat (length (ps_bytes s)) < two64) l
   | _ => True
   end.
@@ -117,10 +116,11 @@ Proof. repeat split; intros; discriminate. Qed.
 Lemma ws_good_step w o : ws_good w -> op_ok o -> ws_good (ws_step_gen false w o).
 Proof.
   intros (G1 & G2 & G3 & G4 & G5) Ok. destruct o; cbn [ws_step_gen op_ok] in *.
-  - destruct (nonempty v); [|now repeat split]. repeat split; cbn; try assumption. now intros ? [= <-].
+  - destruct (nonempty _); [|now repeat split]. repeat split; cbn; try assumption.
+    intros ? [= <-]. apply (wf_from_vec bytes_eqb bytes_eqb_spec).
   - destruct (nonempty l); [|now repeat split]. repeat split; cbn; try assumption.
     intros ? [= <-]. apply dedup_clone_nodup, bytes_eqb_spec.
-  - repeat split; cbn; try assumption. now intros ? [= <-].
+  - repeat split; cbn; try assumption. intros ? [= <-]. apply (wf_from_vec bytes_eqb bytes_eqb_spec).
   - destruct (nonempty l); [|now repeat split]. repeat split; cbn; try assumption.
     intros ? [= <-] v. now apply view_dedup_nodup.
   - destruct (nonempty (pl_elems p)); [|now repeat split]. repeat split; cbn; try assumption.
@@ -326,4 +326,39 @@ Proof.
   split; [apply sorted_keys_nodup, S|]. split.
   - intros k. rewrite In_keys_tmem, Mm. apply (mem_In txin_eqb txin_eqb_spec).
   - intros l' P. f_equal. apply tset_ext; try apply S. intros k. rewrite !Mm. now apply mem_perm; [apply txin_eqb_spec|].
+Qed.
+
+(* ---------- one build: independent of every order a hash-seeded or call-ordered container could impose ---------- *)
+Definition reorder (c : tx_case) (ins coll refs expl : list txin) : tx_case :=
+  mk_tx ins coll (t_dedup_flag c) refs expl (t_signers c) (t_mint c) (t_native c) (t_extra_datums c).
+Theorem tx_build_order_independent c ins coll refs expl :
+  Permutation (t_inputs c) ins -> Permutation (t_collateral c) coll ->
+  Permutation (t_script_refs c) refs -> Permutation (t_explicit_refs c) expl ->
+  tx_build (reorder c ins coll refs expl) = tx_build c.
+Proof.
+  intros Pi Pc Pr Pe. unfold tx_build, reorder. cbn [t_inputs t_collateral t_dedup_flag t_script_refs t_explicit_refs t_signers t_mint t_native t_extra_datums].
+  destruct (tin_set_spec (t_inputs c)) as (_ & _ & Hi). destruct (tin_set_spec (t_collateral c)) as (_ & _ & Hc).
+  rewrite <- (Hi _ Pi), <- (Hc _ Pc).
+  rewrite (ref_inputs_order_independent (t_dedup_flag c) _ _ _ _ _ _ (Permutation_refl _) (Permutation_sym Pr) (Permutation_sym Pe)).
+  reflexivity.
+Qed.
+(* what a build emits in its set-like fields *)
+Theorem tx_build_sets c o : tx_build c = Ok o ->
+  NoDup (x_inputs o) /\ NoDup (x_collateral o) /\ NoDup (x_refs o) /\ NoDup (x_signers o) /\
+  x_signers o = first_occ bytes_eqb (t_signers c) /\ NoDup (x_native o) /\ NoDup (x_data o).
+Proof.
+  unfold tx_build. destruct (match t_mint c with Some h => _ | None => _ end) as [m| | |]; cbn [bind]; try discriminate.
+  intros [= <-]. cbn [x_inputs x_collateral x_refs x_signers x_native x_data].
+  repeat split.
+  - apply tin_set_spec.
+  - apply tin_set_spec.
+  - apply ref_inputs_spec.
+  - apply (wf_from_vec bytes_eqb bytes_eqb_spec).
+  - apply (items_from_vec bytes_eqb bytes_eqb_spec).
+  - unfold ws_partial_dedup, ws_partial_dedup_gen, some_nonempty. cbn [ws_native].
+    destruct (nonempty (t_native c)); [|constructor].
+    destruct (nonempty (dedup_clone bytes_eqb (t_native c))); [|constructor]. apply dedup_clone_nodup, bytes_eqb_spec.
+  - unfold ws_partial_dedup, ws_partial_dedup_gen. cbn [ws_data]. rewrite switch_is_repaired.
+    destruct (t_extra_datums c) as [|d l]; [constructor|].
+    destruct (nonempty _); [|constructor]. cbn. apply datum_dedup_emits_once.
 Qed.
